@@ -34,7 +34,7 @@ def behaviour(rng, nkeys, steps, weights, weak_keys=(), vals=97, leveled_params=
     i = 0
     while len(ops) < steps:
         k = rng.choices(kinds, wts)[0]
-        w = rng.choice([0, "safe", "safe", "high"])
+        w = rng.choice([0, "safe", "at", "high"])
         if k == "write":
             key = rng.randint(1, nkeys)
             if key in once_keys:
